@@ -34,6 +34,8 @@ def cross(a, b):
 
 
 def run(ctx):
+    from xfabsa import numeric as _N
+    _N.alias_rule(ctx, 'C10', ['xfab/detector.py', 'xfab/tools.py'])
     ctx.rule("same-ray", "det_coor == det_coor2 when (cos 2t, lambda/tau Gt_y, lambda/tau Gt_z) == (cos 2t, -sin 2t sin eta, sin 2t cos eta)")
     ctx.rule("on-ray", "(detector_to_lab(pixel) - grain position) x ray direction == 0 for R_tilt = detect_tilt(tx,ty,tz)")
     ctx.rule("in-plane", "R[:,0] . (detector_to_lab(pixel) - (L,0,0)) == 0")
